@@ -13,7 +13,14 @@
                               errs (data from the real parser) converted to positions.
      CompletionOK(sym, at, l, c, got)   the completion reply equals what the real completer
                               (primitive, table at) gives at RespIdx, its replace range converted
-                              to positions. *)
+                              to positions.  At a position that is not Required (past the end of a
+                              line or of the document, between surrogate halves) the server may
+                              normalise the cursor to ANY character boundary j, but the reply must
+                              then be the completion AT j: candidates of j, and an edit range that
+                              is the conversion of j's replace byte range -- hence start <= end,
+                              both ends are positions the conversion produces (they round-trip),
+                              and the end is the position of the normalised cursor offset, never
+                              the client's non-existent position echoed back. *)
 EXTENDS LspPos
 
 AnyIdx == -1
@@ -48,10 +55,19 @@ DiagOK(sym, errs, ranges) ==
 
 \* completion: at[k + 1] = [h, n, rf, rt] is what the real completer gives at boundary k (hash and
 \* number of the candidates, replace byte range); got = [h, n, rg] is the reply (rg of its edits)
+CompletionAt(text, tab, at, k, got) ==
+  /\ got.h = at[k + 1].h /\ got.n = at[k + 1].n
+  /\ got.n > 0 => RangeOK(text, tab, <<at[k + 1].rf, at[k + 1].rt>>, got.rg)
 CompletionOK(sym, at, l, c, got) ==
   LET text == Expand(sym) tab == PosTab(text) k == RespIdx(sym, l, c) IN
-  IF k = AnyIdx THEN TRUE
-  ELSE /\ got.h = at[k + 1].h /\ got.n = at[k + 1].n
-       /\ got.n > 0 => RangeOK(text, tab, <<at[k + 1].rf, at[k + 1].rt>>, got.rg)
+  IF k = AnyIdx THEN \E j \in 0..Len(text) : CompletionAt(text, tab, at, j, got)
+  ELSE CompletionAt(text, tab, at, k, got)
+\* consequences for a reply with candidates (checked on every judged case by JudgeLspCompletion as a
+\* guard on the rule itself): the edit range is ordered and both ends are boundary positions
+RangeWellFormed(sym, got) ==
+  LET text == Expand(sym) tab == PosTab(text) IN
+  got.n > 0 => /\ ~LexLess(<<got.rg[3], got.rg[4]>>, <<got.rg[1], got.rg[2]>>)
+               /\ \E k \in 0..Len(text) : IdxPosT(text, tab, k) = <<got.rg[1], got.rg[2]>>
+               /\ \E k \in 0..Len(text) : IdxPosT(text, tab, k) = <<got.rg[3], got.rg[4]>>
 
 =============================================================================
